@@ -1212,3 +1212,8 @@ Proof.
   destruct (conn (sh s)); [simpl in *; lia|contradiction].
 Qed.
 End CloseFree.
+
+(* ---- witness schedule of the handle race on the pinned run() (C16_F3_refuted) ------------------ *)
+Definition f3_scripts : list (list op) := [[Prepare]; [Call]].
+Definition f3_schedule : list tid :=
+  repeat (Cl 0) 6 ++ repeat (Cl 1) 7 ++ repeat (St 0) 5 ++ [Cl 1].
